@@ -14,7 +14,7 @@ LEVEL_TEXT = ("Held on every (graph, start, string, width, check, mode) case of 
               "Each rejection reason of the oracle has a floor.")
 LEVEL_NOTE = ("Trusts the walk oracle and VT formula in vlib. Fast mode is judged only on graphs without out-degree 3 and only "
               "when the walkable prefix carries <= the requested number of bits, as the property states.")
-PLAN = {"quick": dict(shards=16, budget=100), "thorough": dict(shards=32, budget=400)}
+PLAN = {"quick": dict(shards=16, budget=100), "thorough": dict(shards=16, budget=400)}
 RULE = ("decode(s, L, G, v, mode, check) on: pristine walks; the walk with its i-th symbol replaced by each symbol that is not "
         "an arc there, for every i; walks with 1-4 random edits; walks running into a dead vertex of an unpruned arc subset; "
         "random ACGT strings; foreign characters (N, lower case, '-', U, multi-byte) at a random offset; the empty string; "
